@@ -380,7 +380,9 @@ class Scale:
         for ds in ("A", "B"):
             d = self.p("tmp_ref")
             shutil.copytree(self.p("fresh", ds), d)
-            W.must({"cmd": "make_results", "dir": d, "binning": "b1",
+            # all four kinds of pair counts (dd, dr, rd, rr): a partially written file that still opens
+            # with a subset of them (and silently another estimator) must be recognisable as "other"
+            W.must({"cmd": "make_results", "dir": d, "binning": "b1", "rd": True,
                     "hdf": self.p("res", "cf%s.hdf5" % ds), "prefix": self.p("res", "cd" + ds)})
             shutil.rmtree(d)
             # what an uninterrupted write reads back as (text files round to PRECISION digits)
